@@ -50,6 +50,16 @@ ClosedForm ==
     /\ Len(s.out) = r.delivered
     /\ (s.rd = "eof" <=> r.final = "eof")
 
+\* the header-decoding reader (h = 1: the empty body is the runt of this universe): what it hands out when it carries on
+\* is the closed form HdrReader.carryon; giving up at the first runt yields a prefix of it
+HdrClosedForm ==
+  kind = "stream" /\ s.rd \in {"eof", "err"} =>
+    LET sizes == [i \in 1..Len(OnWire) |-> s.size[OnWire[i]]]
+        r == HdrReader(sizes, Consumed, 1) IN
+    /\ HdrView(s, 1) = [i \in 1..Len(r.carryon) |-> BodyOf(OnWire[r.carryon[i]], sizes[r.carryon[i]])]
+    /\ Len(r.stop) <= Len(r.carryon) /\ \A i \in 1..Len(r.stop) : r.stop[i] = r.carryon[i]
+    /\ (\A i \in 1..Len(sizes) : sizes[i] >= 1) => r.stop = r.carryon
+
 IdAgrees ==
   kind = "id" /\ id.res # "pending" =>
     LET r == IdResult(tr, inbox, dl, "mine") IN id.res = r.res /\ id.idx = r.idx
